@@ -3339,7 +3339,7 @@ def stable_iteration_order(container: Iterable[T]) -> Iterable[T]:
         # anything else is ordered by its repr().
         if isinstance(member, (int, float, str, bytes)):
             return (type(member).__name__, member, "")
-        return (type(member).__name__, 0, repr(member))
+        return (type(member).__name__, 0, stable_repr(member))
 
     try:
         return sorted(container, key=sort_key)
@@ -3347,10 +3347,29 @@ def stable_iteration_order(container: Iterable[T]) -> Iterable[T]:
         return list(container)
 
 
-def stable_repr(obj: object) -> str:
-    """Like repr(), but lists the members of a set in a stable order."""
-    if isinstance(obj, (set, frozenset)) and obj and type(obj) in (set, frozenset):
-        body = ", ".join(stable_repr(member) for member in stable_iteration_order(obj))
+def stable_repr(obj: object, _seen: tuple[int, ...] = ()) -> str:
+    """Like repr(), but lists the members of a set in a stable order, also when the
+    set is nested inside a list, tuple, dict or another set."""
+    if type(obj) not in (set, frozenset, list, tuple, dict) or not obj:
+        return repr(obj)
+    if id(obj) in _seen:
+        return "[...]" if isinstance(obj, list) else "{...}"
+    seen = (*_seen, id(obj))
+    if isinstance(obj, dict):
+        body = ", ".join(
+            f"{stable_repr(key, seen)}: {stable_repr(value, seen)}"
+            for key, value in obj.items()
+        )
+        return f"{{{body}}}"
+    if isinstance(obj, list):
+        return f"[{', '.join(stable_repr(member, seen) for member in obj)}]"
+    if isinstance(obj, tuple):
+        body = ", ".join(stable_repr(member, seen) for member in obj)
+        return f"({body},)" if len(obj) == 1 else f"({body})"
+    if isinstance(obj, (set, frozenset)):
+        body = ", ".join(
+            stable_repr(member, seen) for member in stable_iteration_order(obj)
+        )
         return f"{{{body}}}" if isinstance(obj, set) else f"frozenset({{{body}}})"
     return repr(obj)
 
